@@ -46,6 +46,11 @@ pub struct Dataset {
     pub custom_label: bool,
     /// 0 = LocalMetadataClient, 1 = ObjectStoreMetadataClient
     pub backend: u8,
+    /// 1 = the series written to every other chunk carry no `host` label at all: those chunks are
+    /// flushed without that column (label sets differ between series; the ingester flushes on every
+    /// schema change), so the stored chunks do not all have the same columns
+    #[serde(default)]
+    pub hetero: u8,
 }
 
 pub const AGES_MIN: [i64; 4] = [2, 95, 5 * 60, 30 * 60];
@@ -87,20 +92,24 @@ impl Dataset {
             groups.entry(r.chunk % 6).or_default().push((i, r));
         }
         groups
-            .values()
-            .map(|rows| {
+            .iter()
+            .map(|(g, rows)| {
+                let without_host = self.hetero % 2 == 1 && g % 2 == 1;
                 let ts: Vec<i64> = rows.iter().map(|(_, r)| self.ts_of(now, r)).collect();
                 let mut cols: Vec<ArrayRef> = vec![
                     if self.ts_type % 2 == 0 { Arc::new(Int64Array::from(ts)) as ArrayRef } else { Arc::new(TimestampNanosecondArray::from(ts).with_timezone("UTC")) as ArrayRef },
                     Arc::new(StringArray::from(rows.iter().map(|(_, r)| QMETRICS[r.metric as usize % 3]).collect::<Vec<_>>())),
-                    Arc::new(StringArray::from(rows.iter().map(|(_, r)| r.host.map(|h| HOSTS[h as usize % 4])).collect::<Vec<_>>())),
                 ];
+                if !without_host {
+                    cols.push(Arc::new(StringArray::from(rows.iter().map(|(_, r)| r.host.map(|h| HOSTS[h as usize % 4])).collect::<Vec<_>>())));
+                }
                 if self.custom_label {
                     cols.push(Arc::new(StringArray::from(rows.iter().map(|(_, r)| r.zone.map(|z| ZONES[z as usize % 3])).collect::<Vec<_>>())));
                 }
                 cols.push(Arc::new(Float64Array::from(rows.iter().map(|(_, r)| Some(r.value as f64 / 4.0)).collect::<Vec<_>>())));
                 cols.push(Arc::new(Int64Array::from(rows.iter().map(|(i, _)| *i as i64).collect::<Vec<_>>())));
-                RecordBatch::try_new(self.schema(), cols).unwrap()
+                let schema = if without_host { Arc::new(Schema::new(self.schema().fields().iter().filter(|f| f.name() != "host").map(|f| f.as_ref().clone()).collect::<Vec<_>>())) } else { self.schema() };
+                RecordBatch::try_new(schema, cols).unwrap()
             })
             .collect()
     }
@@ -133,7 +142,18 @@ pub async fn ingest(store: Arc<dyn ObjectStore>, backend: u8, batches: &[RecordB
             return Err("ingester did not flush at the row threshold".into());
         }
     }
-    Ok(Env { store, metadata, all: batches.to_vec(), schema })
+    // what was ingested, as one table: a column a batch does not have is NULL in its rows
+    let all = batches
+        .iter()
+        .map(|b| {
+            if b.schema() == schema {
+                return b.clone();
+            }
+            let cols: Vec<ArrayRef> = schema.fields().iter().map(|f| b.column_by_name(f.name()).cloned().unwrap_or_else(|| arrow_array::new_null_array(f.data_type(), b.num_rows()))).collect();
+            RecordBatch::try_new(schema.clone(), cols).expect("union schema")
+        })
+        .collect();
+    Ok(Env { store, metadata, all, schema })
 }
 
 pub async fn query_node(env: &Env, adaptive: bool) -> Result<QueryNode, String> {
@@ -166,7 +186,7 @@ pub fn qrow() -> impl Strategy<Value = QRow> {
 
 pub fn dataset(max_rows: usize) -> impl Strategy<Value = Dataset> {
     (0u8..2, 0u8..4, 0u8..6, prop::collection::vec(qrow(), 4..max_rows), any::<bool>(), 0u8..2)
-        .prop_map(|(ts_type, age, span_h, rows, custom_label, backend)| Dataset { ts_type, age, span_h, rows, custom_label, backend })
+        .prop_map(|(ts_type, age, span_h, rows, custom_label, backend)| Dataset { ts_type, age, span_h, rows, custom_label, backend, hetero: 0 })
 }
 
 /// An object store whose every request takes one scheduler turn (a `yield_now` before it is
